@@ -13,6 +13,10 @@ BLD = "rspirv::dr::build"
 FRESH0 = 1000
 
 
+class NoInstruction(Exception):
+    """the method creates no instruction in any selection state"""
+
+
 class BH(progx.OpHooks):
     def __init__(self, ctx):
         progx.OpHooks.__init__(self, ctx)
@@ -84,7 +88,11 @@ def run(ctx, f, variant, selected, insert_point=None):
     ev = progx.make(h, "Builder::" + f["name"])
     env = {"self": b}
     for name, ty in [(p[0], p[1]) for p in f["sig"]["params"] if p[0] != "self"]:
-        v = param_value(name, ty, variant)
+        # variant: "some" / "none" (all optional arguments), or ("only", p) / ("without", p)
+        var = variant
+        if isinstance(variant, tuple):
+            var = ("some" if name == variant[1] else "none") if variant[0] == "only" else ("none" if name == variant[1] else "some")
+        v = param_value(name, ty, var)
         if insert_point is not None and v == ("enum", "InsertPoint::End", []):
             v = ("enum", "InsertPoint::" + insert_point, [])
         env[name] = v
@@ -142,10 +150,14 @@ def summarise(ctx, f, base):
     s["problems"] = []
     params = [(p[0], p[1]) for p in f["sig"]["params"] if p[0] != "self"]
     opt_params = [n for n, t in params if t.replace(" ", "").startswith("Option<")]
+    created = 0
     for state in ("block", "function", "none"):
         r1, b1, h1 = run(ctx, f, "some", state)
+        created += len(h1.insts)
         if h1.insts and not (isinstance(r1, tuple) and r1 and r1[0] == "err"):
             break
+    if not created:
+        raise NoInstruction()
     r0, b0, h0 = run(ctx, f, "none", state)
     for r in (r1, r0):
         if isinstance(r, tuple) and r and r[0] == "panic":
@@ -270,6 +282,31 @@ def summarise(ctx, f, base):
                                        and o[2][0][0] == "param" and o[2][0][1] in opt_params)]
     if list(ops0[1]) != keep:
         raise Anchor("operands with the optional arguments absent are %r" % (ops0[1],))
+    # mixed presence: each optional argument alone present / alone absent changes exactly its own operand (and the id source)
+    if len(opt_params) > 1:
+        def is_opt(o, names):
+            return (isinstance(o, tuple) and o[0] == "enum" and len(o[2]) == 1 and isinstance(o[2][0], tuple)
+                    and o[2][0][0] == "param" and o[2][0][1] in names)
+        for pn in opt_params:
+            for kind in ("only", "without"):
+                rm, bm, hm = run(ctx, f, (kind, pn), state)
+                if isinstance(rm, tuple) and rm and rm[0] == "panic":
+                    raise Anchor("panics with %s %s: %s" % (kind, pn, rm[1]))
+                placed_m = [i for i in hm.insts if locate(bm, i)[0] is not None]
+                if len(placed_m) != 1 or locate(bm, placed_m[0])[0] != loc1:
+                    raise Anchor("with %s %s the instruction is stored differently" % (kind, pn))
+                absent = [q for q in opt_params if (q != pn) == (kind == "only")]
+                want_ops = [o for o in ops1[1] if not is_opt(o, absent)]
+                got_ops = placed_m[0][2]["operands"][1]
+                if list(got_ops) != want_ops:
+                    raise Anchor("with %s the optional argument %s present the operands are %r" % ("only" if kind == "only" else "all but", pn, got_ops))
+                for fld, v_all, v_none in (("result_id", id1, id0), ("result_type", rt1, rt0)):
+                    vm = placed_m[0][2][fld]
+                    src_param = v_all[1][1] if (isinstance(v_all, tuple) and v_all[0] == "some" and isinstance(v_all[1], tuple) and v_all[1][0] == "param") else None
+                    present = src_param is None or src_param not in absent
+                    exp = v_all if present else v_none
+                    if opt_shape(vm) != opt_shape(exp):
+                        raise Anchor("with %s %s the %s is %s" % (kind, pn, fld, opt_shape(vm)))
     s["slots"] = out
     # return value
     rv = r1
